@@ -685,7 +685,7 @@ theorem openArchive_entries_bound {fa : Option Nat} {d d' : Dev} {a : Archive}
 theorem openArchiveAlloc_bounds {fa : Option Nat} {d d' : Dev} {a : Archive} {cap : Nat}
     (h : openArchiveAlloc fa d = (.ok (a, cap), d')) :
     46 * a.files.length ≤ d.buf.length ∧
-    ∃ e cde d1 n, findAndParseEocd fa d = (.ok (e, cde), d1) ∧ cap = fileCapacity n cde := by
+    ∃ e cde d1 n ds, findAndParseEocd fa d = (.ok (e, cde), d1) ∧ cap = fileCapacity n cde ds := by
   unfold openArchiveAlloc at h
   obtain ⟨⟨footer, cde⟩, d1, h1, h2⟩ := M.bind_ok_inv h
   dsimp only at h2
@@ -706,7 +706,7 @@ theorem openArchiveAlloc_bounds {fa : Option Nat} {d d' : Dev} {a : Archive} {ca
       have b2 := (getDirectoryCounts_readOnly _ _).ok h3
       have b3 := (ReadOnly.attempt (ReadOnly.seek _)).ok h5
       have hb : d3.buf.length = d.buf.length := by rw [b3, b2, b1]
-      refine ⟨?_, footer, cde, d1, n, h1, rfl⟩
+      refine ⟨?_, footer, cde, d1, n, ds, h1, rfl⟩
       show 46 * files.length ≤ d.buf.length
       by_cases hn : 0 < n
       · have := hl hn
